@@ -379,5 +379,59 @@ fn c04_w_x86_frame_pointer_success_reachable() {
     std::mem::forget(modules);
 }
 
+// ---------------------------------------------------------------- pointer-authentication mask with modules
+fn ref_mask(max_addr: u64) -> u64 {
+    // all ones below the smallest power of two >= max_addr; all ones if there is none in 64 bits
+    let mut k = 0u32;
+    while k < 64 {
+        let p = 1u64 << k;
+        if p >= max_addr {
+            return p - 1;
+        }
+        k += 1;
+    }
+    !0
+}
+
+/// A module list of two modules with symbolic placement, assembled from its parts (hook): the address index is
+/// sorted and disjoint, which is what `from_modules` guarantees (C08); the storage order is either.
+fn two_modules() -> (MinidumpModuleList, u64) {
+    let b0: u64 = kani::any();
+    let s0: u32 = kani::any();
+    let b1: u64 = kani::any();
+    let s1: u32 = kani::any();
+    kani::assume(s0 > 0 && s1 > 0);
+    let e0 = b0.checked_add(s0 as u64 - 1);
+    let e1 = b1.checked_add(s1 as u64 - 1);
+    kani::assume(e0.is_some() && e1.is_some());
+    kani::assume(e0.unwrap() < b1);
+    let swap: bool = kani::any();
+    let (i0, i1) = if swap { (1usize, 0usize) } else { (0usize, 1usize) };
+    let m0 = MinidumpModule::new(b0, s0, "a");
+    let m1 = MinidumpModule::new(b1, s1, "b");
+    let mods = if swap { vec![m1, m0] } else { vec![m0, m1] };
+    let rm: range_map::RangeMap<u64, usize> =
+        range_map::RangeMap::try_from_iter(vec![(range_map::Range::new(b0, e0.unwrap()), i0), (range_map::Range::new(b1, e1.unwrap()), i1)]).unwrap();
+    (minidump::verif::module_list_from_parts(mods, rm), b1.saturating_add(s1 as u64))
+}
+
+/// F: minidump_unwind::arm64::ptr_auth_strip, arm64_old::ptr_auth_strip, MinidumpModuleList::by_addr
+/// I: two modules (base u64, size u32 each, any storage order), the pointer (u64)
+/// B: 2 modules
+/// A: address index sorted and disjoint (from_modules' guarantee, decided under C08); module list assembled by the hook
+/// O: pointer & mask, mask = all ones below the smallest power of two >= max(2^47 - 1, end of the highest module), all ones if that power does not fit in 64 bits (documented in the function); the highest module is the one with the highest address, not the last stored
+#[kani::proof]
+#[kani::unwind(66)]
+fn c04_q_arm64_ptr_auth_mask_from_modules() {
+    let (list, top) = two_modules();
+    let ptr: u64 = kani::any();
+    let apple: u64 = (1u64 << 47) - 1;
+    let max_addr = if top > apple { top } else { apple };
+    assert!(hook::arm64_ptr_auth_strip(&list, ptr) == ptr & ref_mask(max_addr));
+    assert!(hook::arm64_old_ptr_auth_strip(&list, ptr) == ptr & ref_mask(max_addr));
+    kani::cover!(top > (1u64 << 47), "a module above the default split widens the mask");
+    std::mem::forget(list);
+}
+
 #[path = "../playback/c04_frame_pointer.rs"]
 mod playback;
